@@ -62,6 +62,8 @@ def parsePipe : Nat → List String → Option (Pipe × List String)
     -- asynchronous stages (ASYNC cases only): for the list-level meaning Buffered is the identity and the
     -- concurrent map is Map (up to order)
     | "buffered" :: _ :: rest => parsePipe fuel rest
+    -- WithLockWhileMaterializing (SPEC / ASYNC cases only): the identity for the list-level meaning
+    | "lock" :: _ :: rest => parsePipe fuel rest
     | "cmap" :: _ :: f :: rest => do
       let f ← parseFn f; let (p, rest) ← parsePipe fuel rest
       pure (.map f p, rest)
@@ -69,8 +71,9 @@ def parsePipe : Nat → List String → Option (Pipe × List String)
       let n ← n.toInt?; let (p, rest) ← parsePipe fuel rest
       pure (.limit n 1 p, rest)
     | "skip" :: n :: rest => do
-      let n ← n.toNat?; let (p, rest) ← parsePipe fuel rest
-      pure (.skip n false p, rest)
+      -- a negative count skips nothing (the loop `for i := 0; i < skip; i++` does not run): same as 0 in the model
+      let n ← n.toInt?; let (p, rest) ← parsePipe fuel rest
+      pure (.skip n.toNat false p, rest)
     | "concat" :: k :: rest => do
       let k ← k.toNat?; let (ps, rest) ← parsePipes fuel k rest
       pure (.concat ps 0 false false, rest)
